@@ -302,6 +302,7 @@ def check(prop, tier, seed, work, replay, t0):
     log("outcome classes of the executed cases: %s" % json.dumps(classes, sort_keys=True))
     known = load_findings()
     violations, notes, unverifiable, specfail, knownhits = [], 0, 0, [], {}
+    acts_seen = {}   # action of the specification -> number of trace files with an execution that takes it
     samples = []
     for r in results:
         if r["info"]["hang"]:
@@ -315,7 +316,10 @@ def check(prop, tier, seed, work, replay, t0):
         for cid in r.get("cross", [])[:50]:
             violations.append(dict(kind="crossproc", trace=r["trace"], cid=cid, fields=["nondet"], exp=None, job=r["name"]))
         for m in r["msgs"]:
-            if m["k"] == "UNVERIFIABLE":
+            if m["k"] == "ACTS":
+                for a in m["acts"]:
+                    acts_seen[a] = acts_seen.get(a, 0) + 1
+            elif m["k"] == "UNVERIFIABLE":
                 unverifiable += 1
             elif m["k"] == "SPECFAIL":
                 specfail.append((r["trace"], m))
@@ -424,6 +428,8 @@ def check(prop, tier, seed, work, replay, t0):
         "exhaustive": True,
         "families": P["families"], "lens": sorted(P["lens"]), "spec_predicates": P.get("preds", []),
         "outcome_classes": classes,
+        "spec_actions_exercised_by_real_executions": sorted(acts_seen),
+        "spec_actions_not_exercised": sorted(set(spec_actions()) - set(acts_seen)),
         "out_of_lens_differences": notes, "undecidable_cases": unverifiable, "known_finding_cases": sum(knownhits.values()),
     }
     write_evidence(prop, tier, seed, P.get("level", "model_checking"), coverage,
@@ -433,6 +439,14 @@ def check(prop, tier, seed, work, replay, t0):
                    time.time() - t0, nviol)
     log("%s: %d cases validated, %d spec states, %d violations, %d known-finding cases (%.0fs)" % (prop, cases, states, nviol, sum(knownhits.values()), time.time() - t0))
     return rc
+
+
+def spec_actions():
+    """Action labels of the parser specification (every value the steps of Getopt.tla assign to st.act)."""
+    import re
+    src = open(os.path.join(VERIF, "spec", "Getopt.tla")).read()
+    src = src[src.index("(* Steps of Parse."):src.index("(* One step.")]
+    return sorted(set(re.findall(r'"([A-Z][a-z]+[A-Z][A-Za-z]*|Descend|Terminator|Return)"', src)) - {"OracleMiss"})
 
 
 def hang_reproduces(gopt, work, replay_file):
